@@ -38,10 +38,11 @@ def plan(tier, seed):
 
 def thresholds(tier):
   t = {"configs_completed": 100, "ops_replayed": 10000, "subword_ops": 500, "amo_ops": 200, "responses_checked": 10000,
-       "multiport_configs": 50, "rtl_configs": 30, "cl_configs": 30, "backpressure_configs": 30, "metamorphic_pairs": 8, "configs_with_ports_of_different_data_width": 20, "cl_memory_with_rtl_masters_configs": 30, "image_api_calls": 1000, "fl_configs": 20, "configs_with_non_power_of_two_memory": 60, "configs_at_the_top_of_a_narrow_address_space": 40}
+       "multiport_configs": 50, "rtl_configs": 30, "cl_configs": 30, "backpressure_configs": 30, "metamorphic_pairs": 8, "configs_with_ports_of_different_data_width": 20, "cl_memory_with_rtl_masters_configs": 30, "image_api_calls": 1000, "fl_configs": 20, "fl_master_runs": 60, "configs_with_non_power_of_two_memory": 60, "configs_at_the_top_of_a_narrow_address_space": 40}
   if tier == "thorough":
     t = {k: v * 20 for k, v in t.items()}
     t["image_api_calls"] = 3000           # a fixed number of calls per shard
+    t["fl_master_runs"] = 600
   return t
 
 
@@ -498,8 +499,79 @@ def run_image_api(sh, rng):
     sh.fp("image-api", N)
 
 
+FLMASTER_SRC = """
+from pymtl3 import *
+from pymtl3.stdlib.mem.mem_ifcs import MemMasterIfcFL
+from pymtl3.stdlib.mem.MagicMemoryCL import MagicMemoryCL
+from pymtl3.stdlib.mem.MagicMemoryFL import MagicMemoryFL
+from pymtl3.stdlib.mem.MemMsg import mk_mem_msg
+class MasterFL(Component):
+  def construct(s, script):
+    s.mem = MemMasterIfcFL()
+    s.out = []; s.fin = False
+    @update_once
+    def up_master():
+      if not s.fin:
+        for (kind, addr, n, v, amo) in script:
+          if kind == 'wr': s.mem.write(addr, n, Bits(8 * n, v))
+          elif kind == 'rd': s.out.append(s.mem.read(addr, n))
+          else: s.out.append(s.mem.amo(amo, addr, n, Bits(8 * n, v)))
+        s.fin = True
+class FLTop(Component):
+  def construct(s, kind, script, lat, stall):
+    s.master = MasterFL(script)
+    if kind == 'fl':
+      s.mem = MagicMemoryFL(1 << 12); connect(s.master.mem, s.mem.ifc)
+    else:
+      s.mem = MagicMemoryCL(1, [mk_mem_msg(8, 32, 32)], stall, lat, 1 << 12); connect(s.master.mem, s.mem.ifc[0])
+"""
+
+
+def run_flmaster(sh, case):
+  """a functional-level master (blocking read / write / amo calls of 1-4 bytes) on the FL memory and - through the adapter the
+  library inserts - on the CL memory with latency and stalls: every call returns the value AND the width the one in-order memory
+  of the reference returns (the bytes of the access, nothing more), on both memories alike"""
+  from pymtl3 import DefaultPassGroup
+  from vlib import specgen as G
+  rng = sh.rng("flmaster", case)
+  script, ref, exp = [], {}, []
+  mem = bytearray(1 << 12)
+  for _ in range(rng.randrange(6, 20)):
+    n = rng.choice([1, 2, 3, 4]); addr = 0x10 + rng.randrange(0, 6) * 4 + (rng.randrange(0, 4 - n + 1) if n < 4 else 0)
+    kind = rng.choice(["wr", "wr", "rd", "amo"]); v = rng.getrandbits(8 * n); amo = rng.choice(sorted(AMOS))
+    script.append((kind, addr, n, v, amo))
+    cur = int.from_bytes(mem[addr:addr + n], "little")
+    if kind == "wr": mem[addr:addr + n] = v.to_bytes(n, "little")
+    elif kind == "rd": exp.append((8 * n, cur))
+    else:
+      bits = 8 * n; k = AMOS[amo]; a = v
+      r = {"add": (cur + a) & ((1 << bits) - 1), "and": cur & a, "or": cur | a, "xor": cur ^ a, "swap": a,
+           "min": cur if s32(cur, bits) < s32(a, bits) else a, "max": cur if s32(cur, bits) > s32(a, bits) else a, "minu": min(cur, a), "maxu": max(cur, a)}[k]
+      mem[addr:addr + n] = r.to_bytes(n, "little"); exp.append((bits, cur))
+  mod = G.load_source(FLMASTER_SRC, "c18flm")
+  try:
+    for kind in ("fl", "cl"):
+      lat, stall = rng.choice([1, 1, 2, 5]), rng.choice([0, 0, 0.3])
+      try:
+        top = mod.FLTop(kind, script, lat, stall); top.apply(DefaultPassGroup()); top.sim_reset()
+        while not top.master.fin and top.sim_cycle_count() < 3000: top.sim_tick()
+      except Exception as e:
+        sh.violation("fl-master-run-raised", {"memory": kind, "error": f"{type(e).__name__}: {str(e)[:200]}", "script": script[:12]}, case=("flmaster", case)); return
+      got = [(x.nbits, int(x)) for x in top.master.out]
+      sh.count("fl_master_runs"); sh.count("fl_master_returns_checked", len(got)); sh.count("responses_checked", len(got))
+      if not top.master.fin: sh.inconclusive("fl-master-did-not-finish"); return
+      if got != exp:
+        k = next((i for i, (a, b) in enumerate(zip(got, exp)) if a != b), min(len(got), len(exp)))
+        rets = [x for x in script if x[0] != "wr"]
+        sh.violation("fl-master-call-returns-other-value-or-width-than-the-in-order-memory", {"memory": kind + (" (through the FL-to-CL adapter)" if kind == "cl" else ""), "call": rets[k] if k < len(rets) else None,
+                     "returned(nbits, value)": got[k] if k < len(got) else None, "expected(nbits, value)": exp[k] if k < len(exp) else None, "latency": lat, "stall": stall}, case=("flmaster", case)); return
+  finally:
+    G.unload(mod)
+
+
 def run_shard(sh):
   run_image_api(sh, sh.rng("image-api"))
+  for fc in range(3 if sh.tier == "quick" else 30): run_flmaster(sh, sh.idx * 100 + fc)
   for case in range(sh.params["configs"]):
     if sh.only is not None and str(case) != str(sh.only).strip('"'):
       continue
